@@ -14,7 +14,9 @@ PARTS = [
     ("p2p/net/swarm", "TestVerifC01Swarm$", None,
      {"p2p/net/swarm/zz_c01_verif_test.go": "harness/overlay/swarm/c01_verif_test.go"}, (4,)),
     ("p2p/transport/quic", "TestVerifC01Quic$", None,
-     {"p2p/transport/quic/zz_c01_verif_test.go": "harness/overlay/quic/c01_verif_test.go"}, (5,)),
+     {"p2p/transport/quic/zz_c01_verif_test.go": "harness/overlay/quic/c01_verif_test.go"}, (5, 6)),
+    ("p2p/net/upgrader", "TestVerifC01Upgrader$", None,
+     {"p2p/net/upgrader/zz_c01_verif_test.go": "harness/overlay/upgrader/c01_verif_test.go"}, (7,)),
 ]
 
 
@@ -167,6 +169,14 @@ def describe(t):
         if t[0] == 5:
             return {"stack": "quic transport (TLS identity)", "key_types": [KT.get(t[1]), KT.get(t[2])], "dialer_holds": NAME.get(t[3]), "listener_holds": NAME.get(t[4]),
                     "dial_expects": NAME.get(t[5]), "dial": {"returned_conn": t[6], "remote": NAME.get(t[7])}, "listener": {"accepted": t[9], "remote": NAME.get(t[10])}}
+        if t[0] == 6:
+            return {"stack": "quic hole punch (server role of a simultaneous connect)", "key_type": KT.get(t[1]), "peer_at_punched_address": NAME.get(t[2]),
+                    "dial_for": NAME.get(t[3]), "who_connects": {0: "the peer at the punched address, from it", 1: "the dialled peer, from another address"}.get(t[4]),
+                    "dial": {"returned_conn": t[5], "remote": NAME.get(t[6])}}
+        if t[0] == 7:
+            return {"stack": "upgrader", "security": {0: "noise", 1: "tls"}.get(t[1]), "key_type": KT.get(t[2]), "via": {0: "Upgrader.Upgrade", 1: "TcpTransport.Dial"}.get(t[3]),
+                    "direction": {0: "outbound", 1: "inbound (server role)"}.get(t[4]), "expects": NAME.get(t[5]), "remote_holds": NAME.get(t[6]),
+                    "returned_conn": t[7], "remote": NAME.get(t[8])}
         if t[0] == 4:
             return {"stack": "swarm", "op": {0: "dialAddr", 1: "DialPeer", 2: "dialPeer over scripted dial sync"}.get(t[3]), "local": t[1], "dialled_peer": t[2],
                     "transport_authenticated": t[4], "returned_conn": t[5], "returned_remote": t[6]}
@@ -188,6 +198,10 @@ def nontrivial(line):
         return t[4] != t[2]
     if t[0] == b"5":
         return t[6] == b"0"
+    if t[0] == b"6":
+        return t[2] != t[3] or t[4] != b"0"
+    if t[0] == b"7":
+        return t[5] != t[6]
     return True
 
 
@@ -200,7 +214,7 @@ def key(tag, toks, d):
         return "C01:tls:PubKeyFromCertChain:%s:self-signature-not-checked:%d" % ({0: "ConfigForPeer-callback", 1: "direct"}.get(d[1]), d[3])
     if toks[0] == 3 and tag == "M" and len(d) >= 5 and d[3] == 8:
         return "C01:tls:handshake:%s:self-signature-not-checked:%d" % ({0: "client", 1: "server"}.get(d[2]), d[4])
-    return "C01:%s:%s:%s:%s" % ({2: "tls-verify", 3: "tls-handshake", 4: "swarm", 5: "quic"}.get(toks[0], toks[0]), tag, d[:5], " ".join(map(str, toks[:120])))
+    return "C01:%s:%s:%s:%s" % ({2: "tls-verify", 3: "tls-handshake", 4: "swarm", 5: "quic", 6: "quic-holepunch", 7: "upgrader"}.get(toks[0], toks[0]), tag, d[:5], " ".join(map(str, toks[:120])))
 
 
 CLAUSE = {1: "reported peer ID is not the ID of the reported public key", 2: "completed reporting a peer whose key the remote does not hold",
@@ -224,6 +238,10 @@ def what(tag, toks, d):
         return "tls handshake, %s: %s %s" % ({0: "client", 1: "server"}.get(d[2] if len(d) > 2 else -1), CLAUSE.get(c, "diag %s" % d), d[4:])
     if toks[0] == 4:
         return "swarm: %s: %s" % (CLAUSE[7], json.dumps(describe(toks)))
+    if toks[0] == 6:
+        return "quic hole punch: %s; %s" % (CLAUSE.get(d[2] if len(d) > 2 else 0, "diag %s" % d), json.dumps(describe(toks)))
+    if toks[0] == 7:
+        return "upgrader (%s): %s; %s" % ({0: "outbound", 1: "inbound"}.get(d[2] if len(d) > 2 else -1), CLAUSE.get(d[3] if len(d) > 3 else 0, "diag %s" % d), json.dumps(describe(toks)))
     if toks[0] == 5:
         c = d[3] if len(d) > 3 else 0
         return "quic, %s: %s; %s" % ({0: "dialer", 1: "listener"}.get(d[2] if len(d) > 2 else -1), CLAUSE.get(c, "diag %s" % d), json.dumps(describe(toks)))
@@ -260,7 +278,9 @@ if __name__ == "__main__":
              "(3) real tls.Transport pairs whose certificates were replaced by those presentations on either side x expected-peer settings, and a record-aware man in the middle: byte flips of every handshake record "
              "(content type, length, payload; all positions in thorough), truncate/extend/drop/duplicate/splice; after an undisturbed handshake one byte is exchanged each way (first Read on the client reports a server-side rejection). "
              "Swarm: (4) dialAddr, DialPeer and dialPeer-over-a-scripted-dial-sync on a real Swarm whose transport authenticates every peer 0..4 for every dialled peer 1..4. "
-             "QUIC: (5) real QUIC transports over loopback UDP (they reuse Identity.ConfigForPeer / PubKeyFromCertChain): dialer A or E x listener B or E x every expected peer x key types; Dial's result, the listener's Accept, RemotePeer()/RemotePublicKey() on both ends. "
+             "QUIC: (5) real QUIC transports over loopback UDP (they reuse Identity.ConfigForPeer / PubKeyFromCertChain): dialer A or E x listener B or E x every expected peer x key types; Dial's result, the listener's Accept, RemotePeer()/RemotePublicKey() on both ends; (6) hole punching in the server role (WithSimultaneousConnect(ctx, false)): a dial for P towards the address where a peer Q lives while Q "
+             "connects to our listener from that very address (and the controls Q = P, P from another address). Upgrader: (7) Upgrader.Upgrade and TcpTransport.Dial (incl. the simultaneous-connect server role) in both directions x expected peer "
+             "matching/different/empty x remote B/E x real Noise and TLS over loopback TCP. "
              "Every outcome is compared with the Coq model (conform_case) and judged by the property monitor (monitor_case). Non-trivial = edited, forged/mutated, refused, or a wrong-peer connection offered.",
         describe=describe, key=key, what=what, crosscheck=150,
     ))
